@@ -38,9 +38,13 @@ PROP_UNITS = {
 ALL_KANI = ["size_rotation_necessary_contract", "increase_size_contract", "rotation_necessary_size", "naming_state_writes_direct",
             "level_vs_filter", "level_vs_level", "filter_vs_filter", "duplicate_u8_round_trip", "duplicate_from_u8_total_on_encodings",
             "cleanup_keeps_newest_n0", "cleanup_keeps_newest_n1", "cleanup_keeps_newest_n2", "cleanup_keeps_newest_n3",
-            "cleanup_keeps_newest_n4", "cleanup_keeps_newest_n5"]
+            "cleanup_keeps_newest_n4", "cleanup_keeps_newest_n5",
+            "highest_index_empty", "highest_index_single", "highest_index_three", "highest_index_name_with_r", "highest_index_two_digit",
+            "highest_index_gz_only", "filter_member", "filter_longer_basename", "filter_other_suffix", "filter_current_is_not_numbered",
+            "filter_no_infix", "filter_multibyte_neighbour", "filter_equals_current", "filter_compressed",
+            "ts_infix_member", "ts_infix_short_name", "ts_infix_restart_sibling"]
 # the harnesses are selected per property by their own property tags (lib/kani_unit.py HARNESSES)
-PROP_KANI = {p: ALL_KANI for p in ("C01", "C02", "C05", "C07", "C08", "C13", "C14")}
+PROP_KANI = {p: ALL_KANI for p in ("C01", "C02", "C05", "C06", "C07", "C08", "C10", "C13", "C14", "C16")}
 
 # C10 (panic freedom) owns every safety obligation Verus generates in every unit
 C10_UNITS = sorted({(u, f) for u, fs in UNITS.items() for f in fs})
